@@ -40,6 +40,7 @@ pub mod oneshot {
 /// worker.rs `Stop`
 //@extract_type file=actix-server/src/worker.rs item="struct Stop"
 
+//@once send, start
 /// PROPHECY names for the effect of sending a `Stop` message through `&self`: the mode requested in the message that
 /// carries the reply sender of channel `chan`, and the worker queue it was put on.  Each reply channel is used for one
 /// message (Sender is linear), so each name is assigned at most once.
